@@ -250,3 +250,45 @@ fn from_occupancy_spike(max_per_kind: u32) {
     kani::cover!(hit && k == 5 && expect != 0, "queen spike reachable");
     kani::cover!(!hit && own != 0, "miss reachable");
 }
+
+// ---- positions reached by a move: the successor's answers are those of its own placement ------------------------------
+
+/// `State::by_performing_move` builds the successor's board; whatever the parent had already been asked (its lazily
+/// cached maps are populated here, both colours), the successor answers colored_attacks / colored_pawn_attacks / is_check
+/// exactly as a board built from scratch from the successor's own placement does -- a cache can never be carried over
+/// to a position it does not describe.  Fully symbolic position (<= 2 pieces per kind and colour), fully symbolic move
+/// consistent with it (every move class), spike attack function.
+#[kani::proof]
+#[kani::unwind(8)]
+#[kani::stub(crate::attacks::AttackGenerator::compute, stub_compute_spike)]
+fn c10_successor_answers_are_fresh() {
+    use crate::state::verif_c02::{consistent, rights_wf};
+    let p = spike_position(2);
+    let turn = any_color();
+    let rights = any_rights();
+    let ep = any_opt_square();
+    let mv: crate::Move = kani::any();
+    kani::assume(consistent(&p, turn, ep, &mv));
+    kani::assume(rights_wf(&p, &rights));
+    let half: usize = kani::any();
+    let full: usize = kani::any();
+    kani::assume(half < usize::MAX && full < usize::MAX);
+    let state = crate::State::new(board_from(&p), turn, rights, ep, crate::Clock { halfmove_clock: half, fullmove_number: full });
+    // the parent has been queried before the move, in a symbolic subset of the possible ways
+    if kani::any() {
+        let _ = state.board().colored_attacks(Color::White);
+    }
+    if kani::any() {
+        let _ = state.board().colored_attacks(Color::Black);
+    }
+    let next = crate::State::by_performing_move(&state, &mv).unwrap();
+    let q = boards_of(next.board());
+    let c = any_color();
+    let fresh = board_from(&q);
+    assert!(bb(next.board().colored_attacks(c)) == bb(fresh.colored_attacks(c)));
+    assert!(bb(next.board().colored_pawn_attacks(c)) == bb(fresh.colored_pawn_attacks(c)));
+    assert!(next.board().is_check(!c) == fresh.is_check(!c));
+    kani::cover!(mv.is_en_passant(), "en passant reachable");
+    kani::cover!(mv.is_any_castle(), "castling reachable");
+    kani::cover!(bb(fresh.colored_attacks(c)) != 0, "non-empty successor map reachable");
+}
